@@ -80,7 +80,9 @@ func checkC14(c *c14Case) (msg string, nontrivial bool, labels []string) {
 	nops := 0
 	count := func(n *lib.Node) {
 		if n != nil {
-			nops += n.Count(func(x *lib.Node) bool { return x.K == "bin" || x.K == "in" || x.K == "between" || x.K == "not" || x.K == "call" })
+			nops += n.Count(func(x *lib.Node) bool {
+				return x.K == "bin" || x.K == "in" || x.K == "between" || x.K == "not" || x.K == "call"
+			})
 		}
 	}
 	count(c.Stmt.Where)
@@ -132,7 +134,9 @@ var c14BoolFaults = []c14Fault{
 	{"non-boolean-operand-of-!", func() *lib.Node { return lib.Not(lib.Key()) }},
 	{"non-boolean-operand-of-&", func() *lib.Node { return lib.Bin("&", lib.Call("is_int", lib.Key()), lib.Call("strlen", lib.Key())) }},
 	{"non-boolean-operand-of-or", func() *lib.Node { return lib.Bin("or", lib.Call("upper", lib.Key()), lib.Call("is_int", lib.Key())) }},
-	{"non-boolean-operand-of-and", func() *lib.Node { return lib.Bin("and", lib.Call("is_int", lib.Key()), lib.Bin("+", lib.Int(1), lib.Int(2))) }},
+	{"non-boolean-operand-of-and", func() *lib.Node {
+		return lib.Bin("and", lib.Call("is_int", lib.Key()), lib.Bin("+", lib.Int(1), lib.Int(2)))
+	}},
 	{"between-bound-type", func() *lib.Node { return lib.Between(lib.Key(), lib.Int(1), lib.Int(2)) }},
 	{"in-item-type", func() *lib.Node { return lib.In(lib.Key(), lib.Int(1), lib.Int(2)) }},
 	{"arity-too-many", func() *lib.Node { return lib.Call("is_int", lib.Key(), lib.Key()) }},
@@ -352,7 +356,9 @@ func TestC14Positions(t *testing.T) {
 		skel{"arith-operand", func(h *lib.Node) *lib.Stmt { return sel(nil, lib.Bin("=", lib.Bin("+", tInt(), h), lib.Int(3))) }, lib.TyInt},
 		skel{"call-argument-text", func(h *lib.Node) *lib.Stmt { return sel(nil, lib.Bin("=", lib.Call("lower", h), lib.Str("a"))) }, lib.TyText},
 		skel{"call-argument-int", func(h *lib.Node) *lib.Stmt { return sel(nil, lib.Bin("=", lib.Call("str", h), lib.Str("1"))) }, lib.TyInt},
-		skel{"vararg-argument", func(h *lib.Node) *lib.Stmt { return sel(nil, lib.Bin("=", lib.Call("join", lib.Str(","), lib.Key(), h), lib.Str("a"))) }, lib.TyText},
+		skel{"vararg-argument", func(h *lib.Node) *lib.Stmt {
+			return sel(nil, lib.Bin("=", lib.Call("join", lib.Str(","), lib.Key(), h), lib.Str("a")))
+		}, lib.TyText},
 		skel{"in-item-text", func(h *lib.Node) *lib.Stmt { return sel(nil, lib.In(lib.Value(), lib.Str("x"), h)) }, lib.TyText},
 		skel{"in-item-int", func(h *lib.Node) *lib.Stmt { return sel(nil, lib.In(tInt(), lib.Int(1), h)) }, lib.TyInt},
 		skel{"in-left", func(h *lib.Node) *lib.Stmt { return sel(nil, lib.In(h, lib.Str("x"), lib.Str("y"))) }, lib.TyText},
